@@ -13,9 +13,9 @@ from props.c09 import first_diff, count_results, has_unfinished
 from props.c18 import writer_shaped
 
 PROPERTY = "C20"
-LEAN_MODULES = ["LccModel.Props.C20"]
-PROPS_FILES = ["LccModel/Props/C20.lean"]
-NAMESPACES = {"LccModel/Props/C20.lean": "LccModel.C20"}
+LEAN_MODULES = ["LccModel.Props.C20", "LccModel.Props.C20Short"]
+PROPS_FILES = ["LccModel/Props/C20.lean", "LccModel/Props/C20Short.lean"]
+NAMESPACES = {"LccModel/Props/C20.lean": "LccModel.C20", "LccModel/Props/C20Short.lean": "LccModel.C20Short"}
 DRIVER = "drivers/C20.lean"
 TRUSTED_BASE = [
     "Lean 4.33.0 kernel; axioms of the property theorems ⊆ {propext, Classical.choice, Quot.sound}",
@@ -403,6 +403,403 @@ class DiffStream(C.Stream):
             yield dict(case, r2=c)
 
 
+# ---- filtered views: `lcc report --short [filter]`, ReportStats.from_suites -------------------------------
+
+PLAIN_PATTERN = re.compile(r"^[A-Za-z0-9_][A-Za-z0-9_ .]*$")     # no fnmatch metacharacter, no negation flag, not an option
+LINE = re.compile(r"^ (OK|KO|--) +(\d+) # ", re.M)
+LABEL = {"passed": "OK", "failed": "KO"}
+STATUS_FLAGS = {"--passed": ["passed"], "--failed": ["failed"], "--skipped": ["skipped"], "--non-passed": ["failed", "skipped"]}
+
+
+def desc_tests_hier(d):
+    """[(names of the hierarchy (list), dotted paths of every node of the hierarchy, test desc)] in any order"""
+    out = []
+
+    def go(ss, pre):
+        for s in ss:
+            p = pre + [s["md"]["name"]]
+            for t in s["tests"]:
+                names = p + [t["md"]["name"]]
+                out.append((names, [".".join(names[:k]) for k in range(1, len(names) + 1)], t))
+            go(s["suites"], p)
+    go(d["suites"], [])
+    return out
+
+
+def gen_filter(rng, desc):
+    """CLI arguments of a result filter whose meaning the oracle can evaluate by itself: status flags, --enabled /
+    --disabled, --path with the literal dotted path of a test or of a suite (no wildcard character in it)"""
+    tests = desc_tests_hier(desc)
+    kinds = ["none", "status", "status", "status", "enabled", "disabled", "path-test", "path-test", "path-suite", "path-suite",
+             "path+status", "path+status"]
+    if any(t["res"]["status"] is None for _, _, t in tests):
+        kinds += ["enabled", "path-suite", "path-suite", "path-test", "none"]      # filters that can keep an in-progress test
+    kind = rng.choice(kinds)
+    args = []
+    if kind in ("status", "path+status"):
+        present = {t["res"]["status"] for _, _, t in tests}
+        flags = sorted(STATUS_FLAGS)
+        if rng.random() < 0.8:
+            flags = [f for f in flags if present & set(STATUS_FLAGS[f])] or flags
+        args += rng.sample(flags, min(len(flags), rng.choice([1, 1, 2])))
+    if kind in ("enabled", "disabled"):
+        args.append("--" + kind)
+    if kind.startswith("path"):
+        cands = []
+        for names, hier, t in tests:
+            cands += [hier[-1]] if kind == "path-test" else (hier[:-1] if kind == "path-suite" else hier)
+        cands = sorted({c for c in cands if PLAIN_PATTERN.match(c)})
+        if cands:
+            pats = rng.sample(cands, min(len(cands), rng.choice([1, 1, 2])))
+            if rng.random() < 0.1:
+                pats.append("no_such_suite.no_such_test")
+            args += ["--path"] + pats
+        elif kind != "path+status":
+            args += [rng.choice(sorted(STATUS_FLAGS))]
+    return args
+
+
+def filter_meaning(args):
+    statuses, paths, enabled, disabled = set(), [], False, False
+    i = 0
+    while i < len(args):
+        a = args[i]
+        i += 1
+        if a in STATUS_FLAGS:
+            statuses.update(STATUS_FLAGS[a])
+        elif a == "--enabled":
+            enabled = True
+        elif a == "--disabled":
+            disabled = True
+        elif a == "--path":
+            while i < len(args) and not args[i].startswith("--"):
+                paths.append(args[i])
+                i += 1
+    return statuses, paths, enabled, disabled
+
+
+def accepts(args, hier, status):
+    """the filter's meaning on a test, from the documentation of the options (never calls the filter)"""
+    statuses, paths, enabled, disabled = filter_meaning(args)
+    if paths and not any(h == p for h in hier for p in paths):
+        return False
+    if statuses and status not in statuses:
+        return False
+    if enabled and status == "disabled":
+        return False
+    if disabled and status != "disabled":
+        return False
+    return True
+
+
+def parse_short(text):
+    text = ANSI.sub("", text)
+    labels = [m.group(1) for m in LINE.finditer(text)]
+    if "\nStatistics :" not in "\n" + text:
+        return {"labels": labels, "summary": None, "none_found": "No test found or no matching test in the report" in text,
+                "duration_known": False}
+    tail = text[text.rindex("Statistics :"):]
+    out = {"tests": None, "successes": None, "failures": None, "skipped": None, "disabled": None}
+    for key, label in (("tests", "Tests"), ("successes", "Successes"), ("failures", "Failures"), ("skipped", "Skipped"),
+                       ("disabled", "Disabled")):
+        m = re.search(r"\* %s: (\d+)" % label, tail)
+        if m:
+            out[key] = int(m.group(1))
+    return {"labels": labels, "summary": out, "none_found": False, "duration_known": "* Duration: n/a" not in tail}
+
+
+def run_captured(fn):
+    buf = io.StringIO()
+    try:
+        # stderr too: every `cli.main` call runs colorama.init(), which wraps whatever sys.stdout / sys.stderr are at that
+        # moment — left in place, the wrappers would nest a little deeper at every call (RecursionError after ~700 calls)
+        with contextlib.redirect_stdout(buf), contextlib.redirect_stderr(io.StringIO()):
+            ret = fn()
+    except (TypeError, IndexError) as e:
+        return {"err": type(e).__name__}
+    out = parse_short(buf.getvalue())
+    if ret not in (None, 0):
+        out["ret"] = str(ret)
+    return out
+
+
+class ShortStream(C.Stream):
+    """`lcc report --short [filter]` (print_report_as_test_run: filter_suites + ReportStats.from_suites / from_report + _print_summary)
+    and `ReportStats.from_suites` itself, on finished AND unfinished reports (in-progress tests, results without end time)."""
+    name = "C20.short"
+    quick_cases = 300
+    thorough_cases = 6000
+    quick_seconds = 25
+    thorough_seconds = 300
+    chunk = 40
+    corpus = []
+
+    def setup(self, ctx):
+        self.dir = tempfile.mkdtemp(prefix="lccverif-c20s-")
+
+    def teardown(self, ctx):
+        shutil.rmtree(self.dir, ignore_errors=True)
+
+    def gen(self, rng, i):
+        odd = rng.random() < 0.25
+        rep = R.strip_private(R.gen_report(rng, rng.choice(["safe", "plain", "plain"]), odd=odd, none_times=0.01 if odd else 0,
+                                           unfinished=0.45, max_depth=3))
+        # a snapshot of a run in progress: some test (any position: several worker threads) has not ended yet
+        if rng.random() < 0.4:
+            running = [t for _, _, t in desc_tests_hier(rep) if t["res"]["status"] in ("passed", "failed")]
+            for t in rng.sample(running, min(len(running), rng.choice([1, 1, 2]))):
+                t["res"]["end"] = None
+                t["res"]["status"] = None
+                if t["res"]["steps"] and rng.random() < 0.7:
+                    t["res"]["steps"][-1]["end"] = None
+            if running:
+                rep["end"] = None
+        return {"report": rep, "args": gen_filter(rng, rep)}
+
+    def impl(self, case):
+        from lemoncheesecake.cli.main import build_cli_args, main as lcc_main
+        from lemoncheesecake.filter import make_result_filter
+        from lemoncheesecake.reporting import ReportStats
+        from lemoncheesecake.reporting.backends.console import print_report_as_test_run
+        from lemoncheesecake.reporting.backends.json_ import JsonBackend
+        if not getattr(self, "dir", None):
+            self.dir = tempfile.mkdtemp(prefix="lccverif-c20s-")
+        desc = case["report"]
+        args = list(case["args"])
+        rep = R.build_report(desc)
+        path = os.path.join(self.dir, "report.js")
+        flt = make_result_filter(build_cli_args(["report", path, "--short"] + args))
+        # the filter's decisions (what C12 is about), shipped to the model
+        dec = {"tests": [], "setups": [], "teardowns": []}
+        for s in rep.all_suites():
+            names = [n.name for n in s.hierarchy]
+            for t in s.get_tests():
+                if flt(t):
+                    dec["tests"].append(names + [t.name])
+            if s.suite_setup and flt(s.suite_setup):
+                dec["setups"].append(names)
+            if s.suite_teardown and flt(s.suite_teardown):
+                dec["teardowns"].append(names)
+        direct = run_captured(lambda: print_report_as_test_run(rep, flt))
+        try:
+            st = ReportStats.from_suites(rep.get_suites(), rep.parallelized)
+            fs = dict(st.tests_nb_by_status, total=st.tests_nb, enabled=st.tests_enabled_nb, duration_known=st.duration is not None)
+        except (TypeError, IndexError) as e:
+            fs = {"err": type(e).__name__}
+        # the same through the CLI entry point on a saved report file
+        cli = None
+        try:
+            JsonBackend().save_report(path, rep)
+            saved = True
+        except Exception:
+            saved = False
+        if saved:
+            cli = run_captured(lambda: lcc_main(["report", path, "--short"] + args))
+        return {"direct": direct, "cli": cli, "from_suites": fs, "decisions": dec, "truthy": bool(flt),
+                "parallelized": bool(rep.parallelized)}
+
+    def _expected(self, case):
+        tests = desc_tests_hier(case["report"])
+        kept = [(n, h, t) for n, h, t in tests if accepts(case["args"], h, t["res"]["status"])]
+        labels = sorted(LABEL.get(t["res"]["status"], "--") for _, _, t in kept)
+        c = counts([(None, t) for _, _, t in kept])
+        summary = None
+        if kept:
+            summary = {"tests": c["total"], "successes": c["passed"], "failures": c["failed"],
+                       "skipped": c["skipped"] or None, "disabled": c["disabled"] or None}
+        return tests, kept, labels, summary
+
+    def oracle(self, case, obs):
+        desc = case["report"]
+        tests, kept, labels, summary = self._expected(case)
+        starts_known = all(r["start"] is not None for r in R.iter_results(desc))
+        unfinished = any(r["end"] is None for r in R.iter_results(desc))
+        fails = []
+        for how in ("direct", "cli"):
+            o = obs[how]
+            if o is None:
+                continue
+            what = "print_report_as_test_run" if how == "direct" else "lcc report --short " + " ".join(case["args"])
+            if "err" in o:
+                if o["err"] == "TypeError" and starts_known and unfinished:
+                    fails.append(C.Failure("C20/stats/from-suites-in-progress-raises",
+                                           f"{what} raises TypeError on an unfinished report ({len(kept)} tests to display)"))
+                elif starts_known:
+                    fails.append(C.Failure("C20/short-report/raised", f"{what} raised {o['err']}"))
+                continue
+            if "ret" in o:
+                fails.append(C.Failure("C20/short-report/raised", f"{what} returned {o['ret']}"))
+                continue
+            if sorted(o["labels"]) != labels:
+                fails.append(C.Failure("C20/short-report/lines-differ",
+                                       f"{what} displays {sorted(o['labels'])}, the tests the filter accepts give {labels}"))
+            if o["summary"] != summary:
+                fails.append(C.Failure("C20/short-report/summary-differs",
+                                       f"{what}: summary {o['summary']}, enumerating the tests the filter accepts gives {summary}"))
+            if (o["summary"] is None) != o["none_found"]:
+                fails.append(C.Failure("C20/short-report/no-summary", f"{what}: neither a summary nor the 'no test' message"))
+        fs = obs["from_suites"]
+        exp = counts([(None, t) for _, _, t in tests])
+        if "err" in fs:
+            if fs["err"] == "TypeError" and starts_known and unfinished:
+                fails.append(C.Failure("C20/stats/from-suites-in-progress-raises",
+                                       "ReportStats.from_suites(report.get_suites(), parallelized) raises TypeError on an unfinished report"))
+            elif starts_known and tests:
+                fails.append(C.Failure("C20/stats/from-suites-raised", f"ReportStats.from_suites raised {fs['err']}"))
+        else:
+            for k in ("total", "enabled", "passed", "failed", "skipped", "disabled"):
+                if fs[k] != exp[k]:
+                    fails.append(C.Failure("C20/stats/from-suites-count-differs",
+                                           f"ReportStats.from_suites {k}={fs[k]}, enumeration gives {exp[k]}"))
+        return fails
+
+    def request(self, case, obs):
+        flt = None
+        if obs["truthy"]:
+            flt = {k: [[R.wire_str(n) for n in p] for p in v] for k, v in obs["decisions"].items()}
+        return {"op": "short", "report": R.wire(case["report"]), "filter": flt}
+
+    def compare(self, case, obs, ans):
+        if "error" in ans:
+            return "model error: " + ans["error"]
+        m, o = ans["short"], obs["direct"]
+        if "err" in o:
+            return f"short report: real raised {o['err']}, the model (repaired code, D34) never raises"
+        ml = [LABEL.get(st, "--") for _, st in m["lines"]]
+        if ml != o["labels"]:
+            return f"short report lines: real {o['labels']} vs model {ml}"
+        if m["summary"] != o["summary"]:
+            return f"short report summary: real {o['summary']} vs model {m['summary']}"
+        if m["duration_known"] != o["duration_known"]:
+            return f"short report duration known: real {o['duration_known']} vs model {m['duration_known']}"
+        fs = obs["from_suites"]
+        if "err" in fs:
+            return f"from_suites: real raised {fs['err']}, the model (repaired code, D34) never raises"
+        mfs = dict(ans["from_suites"]["stats"], duration_known=ans["from_suites"]["duration_known"])
+        if mfs != fs:
+            return f"from_suites: real {fs} vs model {mfs}"
+        return None
+
+    def nontrivial(self, case, obs):
+        tests, kept, _, _ = self._expected(case)
+        return len(tests) >= 2 and len({t["res"]["status"] for _, _, t in tests}) >= 2 and bool(case["args"]) and bool(kept)
+
+    def features(self, case, obs):
+        tests, kept, _, _ = self._expected(case)
+        statuses, paths, enabled, disabled = filter_meaning(case["args"])
+        f = ["filter:" + ("none" if not case["args"] else "+".join(
+            x for x, on in (("status", statuses), ("path", paths), ("enabled", enabled), ("disabled", disabled)) if on))]
+        f.append("kept:" + ("none" if not kept else "all" if len(kept) == len(tests) else "some"))
+        if any(t["res"]["status"] is None for _, _, t in kept):
+            f.append("in-progress-test-kept")
+        if any(t["res"]["status"] is None for _, _, t in tests) and not any(t["res"]["status"] is None for _, _, t in kept):
+            f.append("in-progress-test-filtered-out")
+        if any(r["end"] is None for r in R.iter_results(case["report"])):
+            f.append("unfinished-result")
+        f.append("parallelized" if obs["parallelized"] else "sequential")
+        f.append("short:" + ("raised" if "err" in obs["direct"] else "no-test" if obs["direct"]["summary"] is None else "summary"))
+        f.append("from_suites:" + ("raised" if "err" in obs["from_suites"] else "ok"))
+        f.append("cli:" + ("not-saved" if obs["cli"] is None else "raised" if "err" in obs["cli"] else "ok"))
+        return f
+
+    def shrink(self, case):
+        args = case["args"]
+        if args:
+            yield dict(case, args=[])
+        for c in R.shrink_desc(case["report"]):
+            yield dict(case, report=c)
+
+
+def _short_case(nb_threads, args):
+    """a run saved while its last test is running (the demo shape of seeded/C20-6)"""
+    T0 = R.T0
+
+    def md(name, rank=0):
+        return {"name": name, "desc": "d", "tags": [], "props": [], "links": [], "rank": rank}
+
+    def done(name, rank, t, status):
+        steps = [{"desc": "s", "start": t, "end": t + 1, "entries": [{"k": "log", "level": "error" if status == "failed" else "info",
+                                                                      "msg": "m", "t": t}]}]
+        return {"md": md(name, rank), "res": {"steps": steps, "start": t, "end": t + 1, "status": status, "details": None}}
+
+    running = {"md": md("checkout", 2), "res": {"steps": [], "start": T0 + 6, "end": None, "status": None, "details": None}}
+    shop = {"md": md("shop", 0), "start": T0, "end": None, "setup": None, "teardown": None,
+            "tests": [done("login", 0, T0 + 1, "passed"), done("search", 1, T0 + 3, "failed"), running], "suites": []}
+    account = {"md": md("account", 1), "start": T0 + 7, "end": T0 + 9, "setup": None, "teardown": None,
+               "tests": [done("signup", 0, T0 + 7, "passed")], "suites": []}
+    return {"report": {"title": "t", "info": [], "nb_threads": nb_threads, "start": T0, "end": None, "saving": None, "setup": None,
+                       "teardown": None, "suites": [shop, account]}, "args": args}
+
+
+def _short_min(args):
+    """minimised failing input of seeded/C20-6: a parallelized run saved while one of its two tests is in progress"""
+    c = _short_case(2, args)
+    shop = c["report"]["suites"][0]
+    shop["tests"] = [shop["tests"][0], shop["tests"][2]]
+    c["report"]["suites"] = [shop]
+    return c
+
+
+def _d34_min():
+    """minimised witness of D34 (fixed): a sequential run saved while its only test is running; the unrepaired
+    ReportStats.from_suites(report.get_suites(), False) raised TypeError here"""
+    c = _short_case(1, [])
+    shop = c["report"]["suites"][0]
+    shop["tests"] = [shop["tests"][2]]
+    c["report"]["suites"] = [shop]
+    return c
+
+
+ShortStream.corpus = [
+    _d34_min(),
+    _short_min(["--path", "shop"]),
+    _short_min([]),
+    _short_case(2, ["--path", "shop"]),            # parallelized: the in-progress test is displayed and must be counted (seeded/C20-6)
+    _short_case(2, ["--enabled"]),
+    _short_case(1, ["--path", "shop"]),            # sequential: the witness of D34 (from_suites raised on the in-progress last result)
+    _short_case(1, ["--passed"]),                  # sequential, the filter drops the in-progress test: fine
+    _short_case(1, []),
+]
+
+
+TABLE_OPENS = ("LccModel.Views",)
+
+
+def tables(ctx):
+    """the duration guard of ReportStats.from_suites, by executing it (obligation `fromSuitesTable_agrees`)"""
+    from lemoncheesecake.reporting import ReportStats, SuiteResult, TestResult
+    singles = [(s, e) for s in (None, 1) for e in (None, 2)]
+    shapes = [[]] + [[x] for x in singles]
+    shapes += [[(s, 2), (3, e)] for s in (None, 1) for e in (None, 4)]
+    shapes += [[(1, 2), (3, None), (5, 6)], [(1, 2), (3, 4), (5, None)], [(1, None), (3, 4), (5, 6)], [(1, None), (3, None)]]
+    rows = []
+    for par in (False, True):
+        for times in shapes:
+            suite = SuiteResult("0", "")
+            suite.start_time = 0.0
+            for i, (st, en) in enumerate(times):
+                t = TestResult(str(i), "")
+                t.rank = i
+                t.start_time = None if st is None else float(st)
+                t.end_time = None if en is None else float(en)
+                t.status = "passed" if en is not None else None
+                suite.add_test(t)
+            try:
+                stats = ReportStats.from_suites([suite], par)
+                out = "FsOutcome.ok %d %d %s" % (stats.tests_nb, stats.tests_nb_by_status["passed"],
+                                                 "true" if stats.duration is not None else "false")
+            except TypeError:
+                out = "FsOutcome.typeError"
+            except IndexError:
+                out = "FsOutcome.indexError"
+            opt = lambda v: "none" if v is None else "some %d" % v
+            lean_times = "[" + ", ".join("(%s, %s)" % (opt(a), opt(b)) for a, b in times) + "]"
+            rows.append(("(%s, (%s : List (Option Nat × Option Nat)))" % ("true" if par else "false", lean_times), out,
+                         "from_suites(parallelized=%s, times=%s) -> %s" % (par, times, out)))
+    return [C.Table("fromSuitesTable", "List ((Bool × List (Option Nat × Option Nat)) × FsOutcome)", rows,
+                    ("LccModel.Model.FilteredViews",))]
+
+
 def _inprogress_failed():
     T0 = R.T0
     step = {"desc": "s", "start": T0 + 1, "end": None, "entries": [{"k": "check", "desc": "c", "ok": False, "details": None, "t": T0 + 2}]}
@@ -419,4 +816,4 @@ ViewsStream.corpus = [_inprogress_failed()]       # D7
 
 
 def streams(ctx):
-    return [ViewsStream(), DiffStream()]
+    return [ViewsStream(), ShortStream(), DiffStream()]
